@@ -94,8 +94,13 @@ func (v version) install() (uninstall func(), problem interface{}) {
 	restore := errbase.TestingWithEmptyMigrationRegistry()
 	var lk, wk []errors.TypeKey
 	problem = core.Try(func() {
-		for _, m := range v.migs {
+		for i, m := range v.migs {
 			errors.RegisterTypeMigration(mig.Pkg, m.prev, m.to)
+			// ... and, as init() code does, use the key of every type registered so
+			// far right away (e.g. to register its decoder) BEFORE the next migration
+			for _, u := range v.migs[:i+1] {
+				_ = errors.GetTypeKey(u.to)
+			}
 		}
 		if v.native != nil {
 			// registered in the documented order: after the migrations, under GetTypeKey(new type).
